@@ -33,9 +33,15 @@ def run(ck):
     r = vlib.vh_json(["host-typed-points", hp] + (["-every", "4"] if q else []), timeout=2400)
     absorb(ck, r, "host-typed-points")
     ck.note("host_typed_points", r["extra"])
+    # a host runs scripts from many goroutines: freshly written scripts whose builtins meet patterns, formats and zones no script of
+    # the process used before are loaded and first run several at a time - the process must survive (the Go runtime aborts on
+    # unsynchronised shared tables), and every first run gives what the script gives alone
+    r = vlib.vh_json(["cold-runs", "-n", "800" if q else "6000", "-g", "16"], timeout=1800)
+    absorb(ck, r, "concurrent-first-runs")
     ck.cov["rule"] += (" In addition every program of the load-time checking family (offenders and valid constructs in every position, both "
                        "interpreters) is offered to the real loader and, if the loader accepts it, run under the panic guard: a script "
                        "the loader lets through must not crash the host either. "
                        "Finally the builtin, extraction and hostile-operand programs run on input points whose fields hold Go values of every kind a "
                        "host could supply (all integer widths, float32, []byte, slices, maps, time, structs, nil pointers, functions, "
-                       "channels, NaN, invalid UTF-8, long strings): no panic, no hang.")
+                       "channels, NaN, invalid UTF-8, long strings): no panic, no hang. Freshly written scripts (unique patterns, formats, zones in every "
+                       "builtin) are loaded and first run 16 at a time: no crash, and each first run equals the run alone.")
